@@ -41,7 +41,9 @@ Definition prepare (m n : nat) (sel : list nat) (basis : list (list Q)) (sigma :
 Definition fscore (m : nat) (fp : fit_problem) (theta : list Q) : Q :=
   score QOpsF (fmeth m) (fp_W fp) (fp_data fp) (lincomb QOpsF (fp_p fp) theta (fp_basis fp)).
 Definition ftarget (m : nat) (fp : fit_problem) : list Q := fit_target QOpsF (fmeth m) (fp_W fp) (fp_data fp).
-Definition unit_norm (theta : list Q) : bool := Qclose tol6 1 (dot QOps theta theta).
+(* normalised fits have unit norm; a fit of norm zero is returned as it is *)
+Definition unit_norm (theta : list Q) : bool :=
+  Qclose tol6 1 (dot QOps theta theta) || forallb (fun x => Qeq_bool x 0) theta.
 Definition Qabs_le (a b tol : Q) : bool := Qle_bool (Qabs (a - b)) tol.
 Definition tol7 : Q := 1 # 10000000.
 Definition tol4 : Q := 1 # 10000.
